@@ -475,4 +475,13 @@ SCENARIO(v0_stop_join) {
   w.finish();
 }
 
+// admission racing the close at count 0: complete() on the empty scope (T0) while T1 spawns
+SCENARIO(v0_spawn_race) {
+  World<V0> w(1, 1, 2);
+  int t1 = rt::spawn([&] { w.spawn_detached(0); w.fire(0); });
+  w.join(0);
+  rt::join(t1);
+  w.finish();
+}
+
 RT_MAIN()
